@@ -203,3 +203,28 @@ Theorem example_history :
   /\ fee_acc (run ex_p ex_s0 ex_ops) = 0 /\ vq_done (run ex_p ex_s0 ex_ops) = false.
 Proof. exact ex_run. Qed.
 Print Assumptions example_history.
+
+(* ---- SlashEscrow for an arbitrary penalty and arbitrary balances (incl. penalty > active +
+   debonding, where slashPool's MoveUpTo caps): the common pool gains exactly what the two
+   pools lose, never more than the penalty; shares, general balance, every other account and
+   the recorded supply are untouched; a penalty covering both pools empties both ---- *)
+Theorem slash_exact : forall s addr amount,
+  let s' := snd (slash s addr amount) in
+  let a := acct s addr in let a' := acct s' addr in
+  common_pool s' + bal (active a') + bal (debonding a') = common_pool s + bal (active a) + bal (debonding a)
+  /\ common_pool s <= common_pool s' /\ common_pool s' - common_pool s <= amount
+  /\ bal (active a') <= bal (active a) /\ bal (debonding a') <= bal (debonding a)
+  /\ tsh (active a') = tsh (active a) /\ tsh (debonding a') = tsh (debonding a) /\ general a' = general a
+  /\ (bal (active a) + bal (debonding a) <= amount -> bal (active a') = 0 /\ bal (debonding a') = 0)
+  /\ (forall e, e <> addr -> acct s' e = acct s e)
+  /\ total_supply s' = total_supply s.
+Proof. exact slash_exact_l. Qed.
+Print Assumptions slash_exact.
+
+(* 150 active + 50 debonding, penalty 120 three times: 120, the remaining 80, nothing *)
+Theorem slash_repeated :
+  let s0 := mkSt [(1, mkAcct 0 0 (mkPool 150 150) (mkPool 50 50) [])] [((1, 1), 150)] [((1, 1, 9), 50)] 1200 1000 0 0 0 false in
+  let s3 := run ex_p s0 [OSlash 1 120; OSlash 1 120; OSlash 1 120] in
+  Inv s0 /\ common_pool s3 = 1200 /\ bal (active (acct s3 1)) = 0 /\ bal (debonding (acct s3 1)) = 0 /\ total_supply s3 = 1200.
+Proof. exact slash_repeated_example. Qed.
+Print Assumptions slash_repeated.
